@@ -443,4 +443,9 @@ def r6_clone(F, R):
     R.floor(1)
 
 
-RULES = [("R1", r1, None), ("R2", r2, None), ("R3", r3, None), ("R4", r4, None), ("R5", r5, None), ("R6", r6_clone, None)]
+def r7_setters(F, R):
+    """`which_scenario(f)` installs the classifier (runner) / forwards to it (Cucumber)."""
+    roles.check_all_builder_setters(F, R, only=r"^which_scenario$", floor=2)
+
+
+RULES = [("R1", r1, None), ("R2", r2, None), ("R3", r3, None), ("R4", r4, None), ("R5", r5, None), ("R6", r6_clone, None), ("R7", r7_setters, None)]
